@@ -59,6 +59,7 @@ static bool pat_match(const struct ent *e, void *const v[4])
 }
 
 static char opsig[64]; static int nops_done;
+static char optrace[400]; static size_t optlen;
 #define BAD(key, ...) do { vr_violation(key, __VA_ARGS__); } while (0)
 
 /* structural walker over the public struct fields */
@@ -179,6 +180,7 @@ void vr_case(uint64_t seed, uint64_t idx, int profile)
         else code = 13;
         vr_fp_mix((uint64_t)code);
         nops_done++;
+        if (optlen < sizeof optrace - 4) optlen += (size_t)snprintf(optrace + optlen, sizeof optrace - optlen, "%c", "EDPRrIqKfcXnCZ"[code]);
         switch (code) {
         case 0: { /* enqueue */
             struct ent e; uint64_t askkey = 0;
@@ -358,7 +360,7 @@ done:
     VR_ADD("ops", nops_done);
     if (growths >= 1 && (removes + reprios) >= 1) vr_mark_nontrivial();
     if (growths >= 3) VR_CNT("cases_3plus_growths");
-    if (idx % 97 == 0) vr_sample("kind=%s exp0=%u keymode=%d ops=%d growths=%d removes=%d reprios=%d colliding=%d pattern_multi=%d final_exp=%u", kind_name[kind], exp0, keymode, nops_done, growths, removes, reprios, collisions, patmulti, hp->heap_exp_cur);
+    if (idx % 97 == 0) vr_sample("kind=%s exp0=%u keymode=%d ops=%d growths=%d removes=%d reprios=%d colliding=%d pattern_multi=%d final_exp=%u first ops (E enqueue D dequeue P peek R remove r reprioritize I item q is_enqueued K keys f/c/X pattern find/count/cancel n count C clear Z reset): %s", kind_name[kind], exp0, keymode, nops_done, growths, removes, reprios, collisions, patmulti, hp->heap_exp_cur, optrace);
 }
 
 int main(int argc, char **argv) { return vr_main(argc, argv); }
